@@ -177,7 +177,7 @@ pub fn clientserver(tier: Tier, w: &Arc<World>) -> Scn {
     set_faults(w, fc);
     let cs = client_server(&d, w, &sandbox, "C14", None, tier, true);
     let desc = cs.desc.clone();
-    w.add_monitor(Box::new(cs.mon));
+    w.add_late_monitor(Box::new(cs.mon));
     Scn { sandbox, desc, step_cap: 6_000_000, time_cap: 100_000_000 * SEC, faultfree: true }
 }
 
@@ -208,12 +208,13 @@ pub fn dupmode(tier: Tier, w: &Arc<World>) -> Scn {
     }
     let n: u64 = d.pick("swarm.c16.n", &[1u64, 0, 2, 3, 254]);
     if mode == 2 {
+        // monitors that attribute tasks must be in place before the first task is spawned
+        w.add_monitor(Box::new(DupMon::new(n)));
         let cs = client_server(&d, w, &sandbox, "C16", Some(n), tier, false);
         let desc = format!("N={n} {}", cs.desc);
         let mut mon = cs.mon;
         mon.desc = desc.clone();
-        w.add_monitor(Box::new(DupMon::new(n)));
-        w.add_monitor(Box::new(C16Cs(mon)));
+        w.add_late_monitor(Box::new(C16Cs(mon)));
         return Scn { sandbox, desc, step_cap: 6_000_000, time_cap: 100_000_000 * SEC, faultfree: true };
     }
     // model peer that acknowledges every copy
@@ -436,6 +437,34 @@ pub fn isolation(tier: Tier, w: &Arc<World>) -> Scn {
         starts.push((p, 10 * MS + d.range("swarm.client.start_us", 3000) as Ns * US));
     }
     desc.push(']');
+    // some endpoints come back later for a second, different transfer (long after the first is over)
+    let nre = d.range("swarm.reused_endpoints", 3) as usize;
+    for j in 0..nre.min(k) {
+        let first = clients[j].peer;
+        let upload = d.chance("swarm.reuse.upload", 1, 2);
+        let oc = draw_options(&d, false, None);
+        let len = draw_len(&d, oc.b, oc.w, 12, 1 << 17);
+        let data = Arc::new(content(len, 300 + j as u64));
+        let name = format!("{}r{j}.bin", if upload { "u" } else { "f" });
+        let path = dir.join(&name);
+        if !upload {
+            std::fs::write(&path, &*data).unwrap();
+        }
+        let mut xc = XferCfg::new(srv.addr(), &name);
+        xc.opts = oc.opts.clone();
+        for o in xc.opts.iter_mut() {
+            if o.0 == "tsize" {
+                o.1 = if upload { len.to_string() } else { "0".into() };
+            }
+        }
+        xc.timeout_ns = oc.tmo_s * SEC;
+        xc.resend_request = false;
+        let (p, c) = if upload { w.add_peer_on(Box::new(Writer::new(xc, data.to_vec())), first) } else { w.add_peer_on(Box::new(Reader::new(xc)), first) };
+        desc.push_str(&format!(" again:{}{len}@peer{first}", if upload { "U" } else { "D" }));
+        clients.push(ClientSpec { client: c, peer: p, upload, content: data.clone(), path: path.clone() });
+        xspecs.push(XferSpec { client: c, peer: p, kind: if upload { Kind::Upload } else { Kind::Download }, content: data, path, conformant: true, dally: true, timeout_ratio: 1 });
+        starts.push((p, 4000 * SEC + j as Ns * MS));
+    }
     // intruders
     let ni = d.range("swarm.intruders", 4) as usize;
     let mut intruders = vec![];
